@@ -27,6 +27,10 @@ def _cells_ok(t):
         # a table whose first row holds shaped objects reports deeper shapes; only flat cells are generated
         return ("C02/ragged", "shape %s but %d rows x %d columns" % (shape, n, ncols), {"how": "shape"})
     colvals = [[V.tv(x) for x in c] for c in cols]
+    if n == 0:
+        # there is no i-th row to compare; whether iterating a zero-row table may raise
+        # (it does on this code base: empty columns have no dtype) is not fixed by the statement
+        return None
     it_rows = [[V.tv(x) for x in row] for row in t]
     if len(it_rows) != n:
         return ("C02/row-col-mismatch", "iteration yields %d rows, len is %d" % (len(it_rows), n), {"how": "iter-count"})
